@@ -136,6 +136,10 @@ def _execute(ctx):
         def cond_of(sym):
             return conds.get(sym, default_cond)
 
+        if lend and scn.get("reuse_lender"):
+            # the same lending strategy object served an earlier backtest (sequential backtests / parameter sweeps)
+            ex.Exchange(bs.backtesting_dispatcher(max_concurrent=1), {QUOTE: D(1000)}, lending_strategy=ls)
+            ctx.probes["lender_reused"] += 1
         e = ex.Exchange(d, dict(init), liquidity_strategy_factory=liq_f, fee_strategy=fee_s, lending_strategy=ls)
         for sym, p in prec.items():
             e.set_symbol_precision(sym, p)
@@ -160,7 +164,7 @@ def _execute(ctx):
         last_k = max(r["k"] for rows in scn["bars"] for r in rows) + 1
         # ------------------------------------------------------------ model
         M = dict(orders={}, seq=[], loans={}, last_close={}, oe=collections.defaultdict(list), nobs=0,
-                 barfill=collections.Counter(), in_handler=0, dirty=True, unknown_ids=0, prev_open_loans=None,
+                 barfill=collections.Counter(), in_handler=0, dirty=True, offgrid=bool(scn.get("offgrid_init")), unknown_ids=0, prev_open_loans=None,
                  pair_bars_seen=collections.defaultdict(list))
         light = ctx.light
         V = ctx.V
@@ -248,7 +252,7 @@ def _execute(ctx):
                 if b.total != b.available + b.hold - b.borrowed:
                     V("C02", "total-inconsistent", f"{s}: {b}")
                 p_ = prec.get(s)
-                if p_ is not None:
+                if p_ is not None and not M["offgrid"]:
                     for v in (b.available, b.hold, b.borrowed):
                         if v != q(v, p_, decimal.ROUND_DOWN):
                             V("C08", "dust", f"{s} balance {v} is not a multiple of 1e-{p_} at {where}")
@@ -757,6 +761,12 @@ def _execute(ctx):
                         if newl:
                             M.setdefault("rolled_back_ok", set()).update(newl)
                             ctx.probes["rollback_after_loan_created"] += 1
+                            for lid in sorted(newl):
+                                li = await e.get_loan(lid)
+                                if li.is_open:
+                                    V("C11", "rejected-autoborrow-loan-open",
+                                      f"{name} was rejected ({r}) but the loan of {li.borrowed_amount} {li.borrowed_symbol} "
+                                      f"created for it is still open")
                     except errors.NoPrice:
                         pass
             if not light:
@@ -954,6 +964,12 @@ def _execute(ctx):
                 else:
                     amt = q(D(op["amt"] + 1), p_)
             amt = q(amt, p_, decimal.ROUND_DOWN) if amt > 0 else amt
+            if ak == "offgrid" or (scn.get("offgrid_loans") and amt > 0 and op["amt"] % 3 == 0):
+                # legal: basana does not validate loan amounts against the symbol precision. From here on the account may
+                # hold sub-precision amounts, so the clauses conditioned on on-grid loan amounts (C08 dust) are off.
+                amt = amt + unit(p_ + 1) * (1 + op["amt"] % 9)
+                M["offgrid"] = True
+                ctx.probes["offgrid_loan"] += 1
             name = f"create_loan({s},{amt})"
             ok, r = await api(name, lambda: e.create_loan(s, amt))
             if ok:
